@@ -396,6 +396,46 @@ BUILDERS: dict[str, Callable[[], Program]] = {
 }
 
 
+# ---------------------------------------------------------------------------
+# programs whose live instances are updated IN PLACE between exports (C14: the
+# request made after the update must not depend on the export made before it)
+# ---------------------------------------------------------------------------
+
+def _twins_unique():
+    a = _single("ut_a", lambda: UBlock(4, 1))
+    b = _single("ut_b", lambda: UBlock(4, 1))
+    return lambda x: b(a(x)) + a(x)
+
+
+def _twins_plain():
+    a = _single("bt_a", lambda: Block(4, 4, 1))
+    b = _single("bt_b", lambda: Block(4, 4, 1))
+    return lambda x: b(a(x)) + a(x)
+
+
+BUILDERS["ublock_twins"] = lambda: _p("ublock_twins", _twins_unique(), [(2, 4)])
+BUILDERS["block_twins"] = lambda: _p("block_twins", _twins_plain(), [(2, 4)])
+
+# state -> (seed of instance a, seed of instance b); 0 is the constructor state
+_TWIN_STATES = {0: (1, 1), 1: (1, 2), 2: (2, 2), 3: (2, 1)}
+MUTABLE = {"ublock_twins": ("ut_a", "ut_b", "UBlock"), "block_twins": ("bt_a", "bt_b", "Block")}
+
+
+def apply_state(name: str, state: int) -> None:
+    """Set the weights of the program's two live instances in place (what a
+    training step or a checkpoint load between two exports does)."""
+    ka, kb, cls = MUTABLE[name]
+    BUILDERS[name]()  # make sure the singletons exist
+    for key, seed in zip((ka, kb), _TWIN_STATES[int(state)]):
+        obj = _SINGLETONS[key]
+        if cls == "UBlock":
+            obj.lin.kernel.value = jnp.asarray(W((4, 4), seed))
+            obj.lin.bias.value = jnp.asarray(W((4,), seed + 50))
+        else:
+            obj.linear.kernel.value = jnp.asarray(W((4, 4), seed))
+            obj.linear.bias.value = jnp.asarray(W((4,), seed + 100))
+
+
 @onnx_function
 class BigConstBlock:
     """Holds a large numpy constant that ends up inside a function body."""
